@@ -155,6 +155,17 @@ thread_local! {
 /// are 16 threads and up to 14 configurations x 2 plugin sets.
 const MAX_DBS_PER_THREAD: usize = 4;
 
+/// Drops the cached databases of every thread of the global pool (and of the calling thread): called
+/// between the phases of a worker so that a phase does not start on top of tens of GB of corelibs.
+pub fn drop_thread_dbs() {
+    let clear = || {
+        DBS.with(|d| d.borrow_mut().clear());
+        DB_ORDER.with(|o| o.borrow_mut().clear());
+    };
+    clear();
+    rayon::broadcast(|_| clear());
+}
+
 /// Compiles a snippet on a per-thread cached database of the configuration.
 pub fn compile_cached(cfg: &Config, starknet: bool, name: &str, code: &str) -> Result<Program, String> {
     DBS.with(|dbs| {
@@ -409,6 +420,7 @@ pub fn exec_worker(ctx: &mut Ctx, prop: &str) {
     }
     ctx.flush();
 
+    drop_thread_dbs();
     // ---------------- W1: generated programs (the same generator as C01).
     let n_gen: u64 = tier.pick(120, 2000);
     let gen_ids: Vec<u64> = (0..n_gen).collect();
@@ -474,6 +486,7 @@ pub fn exec_worker(ctx: &mut Ctx, prop: &str) {
     }
     ctx.flush();
 
+    drop_thread_dbs();
     // ---------------- W2: corelib tests.
     let w2_cfgs: Vec<Config> = match tier {
         Tier::Quick => vec![Config::DEFAULT],
